@@ -18,4 +18,9 @@ def runCase (line : String) : String :=
     match GoVal.parse v with
     | some x => x.enc
     | none => "unmodelled parse"
+  | "conc" :: _ =>
+    -- C04 race-detector rounds: the model side of a round is the theorem (every schedule of
+    -- confined threads gives each thread its sequential result and no race), so the expected
+    -- verdict of every round is `ok`
+    "ok"
   | _ => "bad-op"
